@@ -131,7 +131,7 @@ enum Mode3 {
 #[derive(Tree, Clone, Default)]
 struct S3 {
     o: Option<Pair3>,
-    lut: [Leaf<u8>; 12],
+    lutab: [Leaf<u8>; 12],
     trip: Leaf<[i16; 3]>,
     text: Leaf<heapless::String<256>>,
     k: Leaf<u8>,
